@@ -1,5 +1,7 @@
 import Secp.Proofs.DecodeRT
 import Secp.Proofs.DecodeTies
+import Secp.Proofs.ElementCodecTies
+import Secp.Proofs.BytesTies
 /-!
 # C03 — element decoders accept exactly the canonical encodings of curve points
 
@@ -89,6 +91,19 @@ theorem decoders_tied (e : Pt L4) (data x y : Bytes) :
     GenDecode.decodeCoordinates DecodeTies.limbBytes Hand.limbOps e x y = DecodeTies.shape (Hand.ElementL.decodeCoordinates e x y) :=
   ⟨DecodeTies.decode_tie e data, DecodeTies.decodeCompressed_tie e data, DecodeTies.decodeUncompressed_tie e data,
    DecodeTies.decodeCoordinates_tie e x y⟩
+
+/-- the wrappers `DecodeHex` and `UnmarshalBinary`, regenerated on every run, go through the regenerated `Decode` and nothing
+else; and the 32-byte parser the decoders are parameterised by is the `FromBytesWithReduce` regenerated from
+`internal/field`, which never panics on a 32-byte string -/
+theorem decode_wrappers_tied (e : Pt L4) (data : Bytes) (h : String) :
+    GenElementCodec.element_unmarshalBinary DecodeTies.limbBytes Hand.limbOps e data =
+      some (ElementCodecTies.swap (DecodeTies.shape (Hand.ElementL.decode e data))) ∧
+    GenElementCodec.element_decodeHex DecodeTies.limbBytes Hand.limbOps e h =
+      some (ElementCodecTies.swap (DecodeTies.shape (Hand.ElementL.decodeHex e h))) ∧
+    (data.length = 32 → ∀ x : L4, GenFieldBytes.element_fromBytesWithReduce x data =
+      some (DecodeTies.limbBytes.fromBytesWithReduce data)) :=
+  ⟨ElementCodecTies.unmarshal_tie e data, ElementCodecTies.decodeHex_tie e h,
+    fun hl x => BytesTies.fp_fromBytesWithReduce x data hl⟩
 
 -- non-vacuity: the specification accepts the encoding of the base point, so the acceptance branch is inhabited
 example : Spec.decode (Spec.encodeCompressed Spec.G) = some Spec.G :=
